@@ -50,6 +50,28 @@ pub fn real_decode_all(input: &[u8]) -> (Vec<Value>, Vec<Value>) {
     (dec, eof)
 }
 
+/// whole input in one BytesMut, drained with `decode_eof` alone (a fresh codec)
+pub fn real_eof_only(input: &[u8]) -> Vec<Value> {
+    let mut codec = LinesCodec::default();
+    let mut buf = BytesMut::from(input);
+    let bound = input.len() + 2;
+    let mut out = vec![];
+    let r = catch(|| loop {
+        match item(codec.decode_eof(&mut buf)) {
+            None => break,
+            Some(i) => out.push(i),
+        }
+        if out.len() > bound {
+            out.push(json!({"k": "nonterminating", "v": []}));
+            break;
+        }
+    });
+    if let Err(msg) = r {
+        out.push(json!({"k": format!("panic: {msg}"), "v": []}));
+    }
+    out
+}
+
 pub fn real_encode_all(items: &[Vec<u8>]) -> Vec<u8> {
     let mut codec = LinesCodec::default();
     let mut buf = BytesMut::new();
@@ -113,8 +135,10 @@ pub fn main() {
         if v["t"] == "vec" {
             let input = bytes_of(&v["in"]);
             let (dec, eof) = real_decode_all(&input);
-            let obs = json!({"ev": "vec", "in": input, "dec": dec, "eof": eof});
-            if obs["dec"] != v["dec"] || obs["eof"] != v["eof"] {
+            let eofonly = real_eof_only(&input);
+            let want_eo: Vec<Value> = v["dec"].as_array().unwrap().iter().chain(v["eof"].as_array().unwrap()).cloned().collect();
+            let obs = json!({"ev": "vec", "in": input, "dec": dec, "eof": eof, "eofonly": eofonly});
+            if obs["dec"] != v["dec"] || obs["eof"] != v["eof"] || obs["eofonly"] != json!(want_eo) {
                 mismatches.push(json!({"run": run, "step": 0, "expected": v, "observed": obs}));
             }
             let (rl, re) = ref_lines(&input);
@@ -148,9 +172,9 @@ pub fn main() {
             let len = rng.range(8, 400);
             let input: Vec<u8> = (0..len).map(|_| ALPHABET[rng.below(6)]).collect();
             let (dec, eof) = real_decode_all(&input);
-            let obs = json!({"ev": "vec", "in": input, "dec": dec, "eof": eof, "random": true});
+            let obs = json!({"ev": "vec", "in": input, "dec": dec, "eof": eof, "eofonly": real_eof_only(&input), "random": true});
             let (rl, re) = ref_lines(&input);
-            if obs["dec"] != json!(rl) || obs["eof"] != json!(re) {
+            if obs["dec"] != json!(rl) || obs["eof"] != json!(re) || obs["eofonly"] != json!(ref_flat(&input)) {
                 mismatches.push(json!({"run": run, "step": 0, "observed": obs,
                     "expected": {"t": "vec", "in": input, "dec": rl, "eof": re}}));
             }
